@@ -89,10 +89,16 @@ def corrupt(r, ast_story):
     if not sites:
         return None
     it, nested, is_jump = r.choice(sites)
-    kind = r.choice(["unknown-target", "surplus", "unknown-kw", "missing", "duplicate", "at-target", "kw-optional-only"])
+    kind = r.choice(["unknown-target", "surplus", "unknown-kw", "missing", "duplicate", "at-target", "kw-optional-only", "gap", "gap"])
     params = {p["name"]: p["params"] for p in ast_story["passages"]}
     ps = params.get(it["target"], [])
-    if kind == "unknown-target":
+    if kind == "gap":
+        # a blank between the passage name and its argument list ("Stall (3)"): correct arguments, unusual spelling
+        if not ps:
+            return None
+        it["args"] = ", ".join(["1"] * len(ps))
+        it["gap"] = r.choice([" ", "  ", "\t"])
+    elif kind == "unknown-target":
         it["target"] = "Nowhere_" + it["target"]
     elif kind == "at-target":
         if is_jump:
@@ -121,7 +127,7 @@ def corrupt(r, ast_story):
         if not ps:
             return None
         it["args"] = ", ".join(["1"] * len(ps)) + f", {ps[0][0]}=2"
-    return kind, ("nested" if nested else "top") + ("-jump" if is_jump else "-choice")
+    return kind, ("nested" if nested else "top") + ("-jump" if is_jump else "-choice"), it["target"]
 
 
 def real_graph(story):
@@ -306,7 +312,8 @@ def _chunk(arg):
         if corrupted:
             k = f"{corrupted[0]}@{corrupted[1]}:accepted"
             out["corrupt"][k] = out["corrupt"].get(k, 0) + 1
-        ops, real = corr_play.walk(r, story, n_ops, "main", dict(choose=85, goto=3, undo=4, redo=2, read=4, bad=2, save=0, load=0, fresh=0, loadbad=0))
+        ops, real = corr_play.walk(r, story, n_ops, "main", dict(choose=85, goto=3, undo=4, redo=2, read=4, bad=2, save=0, load=0, fresh=0, loadbad=0),
+                                   prefer=({corrupted[2]} if corrupted and corrupted[1] == "nested-choice" else None))
         todo.append((src, story, {"ops": ops, "real": real}, corrupted))
     models = run_driver([{"kind": "graph", "id": f"g{i}", "story": t[1]} for i, t in enumerate(todo)]) if todo else []
     for (src, story, wc, corrupted), m in zip(todo, models):
@@ -372,3 +379,49 @@ def graph_family(rep, n_cases, n_ops, which, known_classes=(), nproc=16):
     cov["distinct_nontrivial"] = cov.get("distinct_nontrivial", 0) + len(hashes)
     cov.setdefault("families", {})["graph"] = tot
     return tot
+
+
+FIXED_GRAPH_STORIES = [
+    # unusual but accepted spellings of call sites inside blocks; every offered choice is taken once from a fresh engine
+    (":: Market\n~ coins = 5\nStalls.\n@if coins >= 3:\n  + [Haggle] -> Stall (3)\n  + [Tab] -> Stall\t(4)\n@endif\n@for k in [1, 2]:\n  + [Loop {k}] -> Stall  (k)\n@endfor\n"
+     "+ [plain] -> Stall(1)\n+ [dotted] -> Town.Inn(2)\n@if coins > 1:\n  + [dotted in block] -> Town.Inn(3)\n  + [deep] -> Town.Inn.Room(1)\n@endif\n\n"
+     ":: Stall(price)\nPrice {price}\n+ [back] -> Market\n\n:: Town.Inn(n)\nInn {n}\n@if n > 2:\n  -> Town.Inn.Room(n)\n@endif\n+ [back] -> Market\n\n"
+     ":: Town.Inn.Room(n=0)\nRoom {n}\n+ [back] -> Market\n"),
+    (":: Start\n~ go = True\nA\n@if go:\n  @for i in [1]:\n    + [deep {i}] -> End (i)\n    @if i:\n      + [deeper] -> End( i )\n      -> Side\n    @endif\n  @endfor\n@endif\n+ [join] -> @join\n@join\nafter\n@if go:\n  + [late] -> End (2)\n@endif\n\n"
+     ":: Side\nside\n@if go:\n  + [from side] -> End (7)\n@endif\n\n:: End(x)\nEnd {x}\n"),
+]
+
+
+def fixed_graph_probes(rep, which):
+    """every choice on offer in a few fixed stories is taken once; the transition the engine performs must be an edge of the graph"""
+    n = 0
+    for src in FIXED_GRAPH_STORIES:
+        try:
+            story = corr_play.compile_source(src)
+        except Exception as ex:  # noqa
+            rep.violations.append({"cls": None, "family": "c18-fixed", "what": f"probe story does not compile: {ex}", "source": src})
+            continue
+        first = real_play.play(story, [])
+        if first.get("status") != "ok":
+            rep.violations.append({"cls": None, "family": "c18-fixed", "what": f"probe story does not start: {first}", "source": src})
+            continue
+        prefixes = [[]]
+        # also the choices on offer after each first choice (one level deeper)
+        for i in range(len(first["init"]["out"]["choices"])):
+            prefixes.append([{"op": "choose", "i": i}])
+        for pre in prefixes:
+            base = real_play.play(story, pre)
+            if base.get("status") != "ok":
+                continue
+            last = base["steps"][-1]["state"] if pre else base["init"]
+            if not last.get("out"):
+                continue
+            for i in range(len(last["out"]["choices"])):
+                ops = pre + [{"op": "choose", "i": i}]
+                real = real_play.play(story, ops)
+                n += 1
+                f18, _, _ = check_story(story, {"status": "skipped"}, {"ops": ops, "real": real}, "c18-fixed", src)
+                for f in f18:
+                    rep.violations.append(dict(f, ops=ops))
+    rep.coverage.setdefault("families", {})["c18-fixed"] = {"cases": n}
+    rep.coverage["evaluations"] = rep.coverage.get("evaluations", 0) + n
